@@ -1336,6 +1336,55 @@ def judge_o_intdata(inp, obs, lr):
                 "observed": obs, "tags": tags}
     return None
 
+# ---- integer *model* coordinates (wave 6): points given by integral half-space / Klein-lattice coordinates ----------------
+def gen_o_intcoords(rng, n):
+    for _ in range(n):
+        dim = rng.choice([2, 2, 3])
+        def pt():
+            return [rng.randint(-4, 4) for _ in range(dim - 1)] + [rng.randint(1, 5)]
+        while True:
+            a, b = pt(), pt()
+            if a != b and a[:-1] != b[:-1]:      # (vertical geodesics pass through the half-space point at infinity: excluded)
+                break
+        yield {"dim": dim, "a": a, "b": b, "pack": rng.choice(["int64", "int32", "list", "pyint_point"]), "kind": rng.choice(["segment", "segment", "horosphere"]),
+               "degrees": rng.random() < 0.5}
+
+
+def run_o_intcoords(inp):
+    dim, kind = inp["dim"], inp["kind"]
+    def pack(x, packed):
+        if not packed:
+            return np.array(x, dtype=float)
+        return {"int64": lambda: np.array(x, dtype=np.int64), "int32": lambda: np.array(x, dtype=np.int32),
+                "list": lambda: [int(t) for t in x], "pyint_point": lambda: [int(t) for t in x]}[inp["pack"]]()
+    def build(packed):
+        pa, pb = H.Point(pack(inp["a"], packed), model="halfspace"), H.Point(pack(inp["b"], packed), model="halfspace")
+        if kind == "segment":
+            return H.Segment(pa, pb)
+        # the horosphere centred at the ideal endpoint (beyond b) of the ray from a through b, passing through a
+        cen = H.IdealPoint(np.array(H.Segment(H.Point(np.array(inp["a"], dtype=float), model="halfspace"),
+                                              H.Point(np.array(inp["b"], dtype=float), model="halfspace")).ideal_basis, dtype=float)[..., 1, :])
+        return H.Horosphere(cen, pa)
+    ref, obj = build(False), build(True)
+    want, got = _h_query(kind, ref, dim, inp["degrees"]), _h_query(kind, obj, dim, inp["degrees"])
+    # the object passes through the points it was given: half-space coordinates of the endpoints / reference point
+    through = 0.0
+    if kind == "segment":
+        ec = np.array(obj.endpoint_coords("halfspace"), dtype=float)
+        through = float(np.max(np.abs(ec - np.array([inp["a"], inp["b"]], dtype=float))))
+    return {"same_as_float64": bool(_h_same(got, want, 1e-9)), "through": through}
+
+
+def judge_o_intcoords(inp, obs, lr):
+    tags = {"kind": inp["kind"], "dim": inp["dim"], "pack": inp["pack"], "coords": "halfspace integers"}
+    if "exc" in obs:
+        return {"expected": "objects built from integral half-space coordinates", "observed": obs, "tags": dict(tags, exc=obs["exc"])}
+    if not obs["same_as_float64"] or not obs["through"] <= 1e-9:
+        return {"expected": "the same circle / sphere parameters, ideal endpoints and endpoint coordinates as for the float64 array of the same half-space coordinates; the segment ends at the points given",
+                "observed": obs, "tags": tags}
+    return None
+
+
 
 
 # ---- G12: magnitudes - objects almost through the centre of the ball, endpoints far from the centre ---------------
@@ -1573,6 +1622,9 @@ CLAUSES = [
            budget={"quick": 100, "thorough": 3000},
            what="G16: stacks of geodesics / segments of mixed kinds (ordinary, through the half-space point at infinity, almost through the centre, far endpoint; "
                 "2-6 members incl. exactly dim+1): member i of sphere_parameters / circle_parameters in both models = the single object's answer"),
+    Clause("integer_coords_oracle", "oracle", gen_o_intcoords, run_o_intcoords, judge_o_intcoords, site="hyperbolic.Point(model=halfspace) -> Segment / Horosphere parameters",
+           budget={"quick": 60, "thorough": 1500},
+           what="segments and horospheres through points given by INTEGRAL half-space coordinates (int64, int32, lists of Python ints): circle / sphere parameters in both models, ideal endpoints and endpoint coordinates equal those for the float64 array of the same coordinates, and the segment ends at the given points"),
     Clause("integer_data_oracle", "oracle", gen_o_intdata, run_o_intdata, judge_o_intdata, site="hyperbolic.Segment._compute_aux_data",
            budget={"quick": 120, "thorough": 3000},
            what="Segment / Geodesic / Hyperplane / Horosphere / Polygon built from integral data as int64, int32, nested lists of ints, float32, integer Points "
